@@ -49,6 +49,11 @@ EXTRA_TEXTS = ['foo == a["b"]', 'foo != a[ `b` ]', 'a["b"] in foo', 'foo contain
                '(foo == 0)', 'foo == 0a', 'foo == 0.', 'foo == 0.5x', 'foo == 09', 'foo == 0_1', 'foo == -a', 'foo == 0x1F and a == 1', '0 in foo', '0x in foo',
                'a == 1 and b == 2 and c == 3', 'a == 1 or b == 2 or c == 3', 'a == 1 and b == 2 and c == 3 and d == 4', 'a == 1 or b == 2 and c == 3 or d == 4',
                'not a == 1 and not b == 2 and c == 3', '(a == 1 and b == 2) and c == 3', 'a == 1 and (b == 2 and c == 3)', 'any a as x { x == 1 and x == 2 and x == 3 }',
+               # what may follow a literal: closing braces / parentheses / other punctuation directly after numbers, strings and bare words
+               'any xs as x { x == 1}', 'all m as k, v { v != -2.5}', 'any xs as x {x == 1 }', 'any xs as x { x == "1"}', 'any xs as x { x == a}', 'any xs as x { 1 in x}',
+               'any xs as x { x is empty}', 'any xs as x { x == `1`}', '(a == 1)', '(a == 1 )', '( a == 1)', 'a == 1,', 'a == 1]', 'a == 1{', 'a == 1"', 'a == 1(', 'a == 1\t', 'a == 1\n',
+               'a == 1\r', 'a == 1.5}', 'a == -1)', '(a == b)', '(a == "b")', 'any xs as x { (x == 1) }', 'any xs as x { (x == 1)}', 'any xs as x {(x == 1)}', 'all xs as x{x == 1 }',
+               'all xs as x { x == 1 }}', 'all xs as x { x == 1 } ', 'all xs as _ ,v { v == 1 }', 'all xs as k,v{ v == 1 and k == 0 }', '1 in a}', 'a == 1 }',
                # escape sequences inside double-quoted literals (strconv.Unquote)
                'foo == "\\u00e9"', 'foo == "\\u00E9x"', 'foo == "\\U0001F600"', 'foo == "\\ud800"', 'foo == "\\U00110000"', 'foo == "\\u12"', 'foo == "\\101"',
                'foo == "\\377"', 'foo == "\\400"', 'foo == "\\18"', 'foo == "\\x41"', 'foo == "\\xc3\\xa9"', 'foo == "\\303\\251"', 'foo == "\\xff\\x41"', 'foo == "\\0"',
